@@ -49,7 +49,14 @@ def _scan_range(args):
 
 def impl_read(data, widths, via_stream):
     BitReader = _impl()
-    r = BitReader(io.BytesIO(data) if via_stream else data)
+    if via_stream == 2:
+        # a stream the caller has already read a header from: the reader starts at the stream's current position
+        lead = bytes((len(data) * 7 + k) & 0xff for k in range(1 + len(data) % 5))
+        src = io.BytesIO(lead + data)
+        src.read(len(lead))
+    else:
+        src = io.BytesIO(data) if via_stream else data
+    r = BitReader(src)
     got = []
     for w in widths:
         try:
@@ -139,7 +146,7 @@ def run(chk, drv):
     reqs = [{'op': 'bits.read', 'bytes': d.hex(), 'widths': ws} for d, ws in cases]
     model = drv.run(reqs) if drv is not None else [None] * len(cases)
     for i, ((d, ws), m) in enumerate(zip(cases, model)):
-        via_stream = bool(i & 1)
+        via_stream = i % 3                     # bytes / fresh stream / stream positioned after a header
         got = impl_read(d, ws, via_stream)
         exp = oracle_read(d, ws)
         crosses = any((sum(ws[:j]) % 8) + ws[j] > 8 for j in range(len(ws)))
